@@ -45,6 +45,10 @@ def mixed_pages(tier):
     if tier != 'quick':
         shapes += [dict(t=6, s=1, nlv=(3,), enc=8, nd=2, ibw=1, il=0), dict(t=5, s=0, nlv=(3, 2), enc=(8, 0), nd=4, ibw=2, il=0, codec=1),
                    dict(t=7, s=1, nlv=(3,), enc=8, nd=3, ibw=2, il=0), dict(t=3, s=0, nlv=(4,), enc=8, nd=2, ibw=1, il=0, openm=1)]
+    # the 4-byte length prefix of the level sections (all 2^32 values at once): nullable and repeated columns, PLAIN and dictionary pages
+    # (added after seeded C04-level-length-prefix-wrap / C14-def-prefix-check-before-advance)
+    for sh in [dict(t=1, s=1, nlv=(4, 3), il=0), dict(t=2, s=1, nlv=(5,), il=0, openm=1), dict(t=6, s=1, nlv=(3,), enc=8, nd=2, ibw=1, il=0)] + ([] if tier == 'quick' else [dict(t=2, s=1, nlv=(5,), il=0), dict(t=5, s=1, nlv=(2, 2, 2), il=0), dict(t=1, s=1, nlv=(4,), il=0, codec=1), dict(t=1, s=1, nlv=(4,), il=0, openm=1)]):
+        out.append(c06.shape(damage=1, damage_prefix=1, timeout=600, max_paths=400000, **sh))
     for sh in shapes:
         if tier == 'quick':
             for d0 in range(0, 96, 4):       # page regions of these shapes are 48..90 bytes long (positions wrap at the footer)
